@@ -535,6 +535,10 @@ def wide_range_cases(ctx, rng, count):
         for _ in range(rng.choice([1, 1, 2])):
             k = rng.choice(exps) * rng.choice([1, 1, -1])
             w[rng.randrange(len(und))] *= 10.0 ** k
+        if not (all(math.isfinite(x) and x > 0 for x in w) and math.isfinite(2 * sum(w))):
+            # two large factors on the same edge overflow to inf (or two small ones underflow to 0): not a weighted graph
+            ctx.count('skipped:non-finite-weight')
+            continue
         es, ws = [], []
         for (i, j), x in zip(und, w):
             es += [(i, j), (j, i)]
